@@ -38,6 +38,10 @@ func init() {
 		"verifConcrete": inVerifConcrete,
 		"verifSymbolic": func(w *Worker, fr *frame, fn *ssa.Function, args []Value) Value { return true },
 		"verifItoa":     inItoa,
+		"verifCutErrors": func(w *Worker, fr *frame, fn *ssa.Function, args []Value) Value {
+			w.p.cutOff = !args[0].(bool)
+			return nil
+		},
 		"verifHasPrefix": inStringsHasPrefix,
 		"verifGlobalsUnchanged": inVerifGlobals,
 	}
@@ -48,6 +52,23 @@ func init() {
 		"strings.TrimRight": inStringsTrimRight,
 		"strings.ToUpper":   inStringsToUpper,
 		"strings.HasPrefix": inStringsHasPrefix,
+		"internal/stringslite.HasPrefix": inStringsHasPrefix,
+		"internal/stringslite.HasSuffix": inStringsHasSuffix,
+		"internal/stringslite.Index":     inStringsIndex,
+		"internal/stringslite.IndexByte": inIndexByteString,
+		"internal/bytealg.IndexByteString": inIndexByteString,
+		"internal/bytealg.IndexByte":       inIndexByteSlice,
+		"internal/bytealg.CountString":     inCountString,
+		"internal/bytealg.Count":           inCountSlice,
+		"internal/bytealg.IndexString":     inStringsIndex,
+		"internal/bytealg.LastIndexByteString": inLastIndexByteString,
+		"internal/bytealg.Equal":           inBytesEqual,
+		"bytes.Equal":                      inBytesEqual,
+		"strings.IndexByte":                inIndexByteString,
+		"strings.LastIndexByte":            inLastIndexByteString,
+		"strings.Count":                    inStringsCount,
+		"strings.EqualFold":                inStringsEqualFoldASCII,
+		"strings.ToLower":                  inStringsToLower,
 		"strings.HasSuffix": inStringsHasSuffix,
 		"strings.Contains":  inStringsContains,
 		"strings.Index":     inStringsIndex,
@@ -76,6 +97,9 @@ func init() {
 		"fmt.Println":  inNop,
 		"fmt.Printf":   inNop,
 		"strconv.Itoa": inItoa,
+		"internal/stringslite.Clone": inIdentity,
+		"strings.Clone":              inIdentity,
+		"strconv.cloneString":        inIdentity,
 		"strconv.Quote": inQuote,
 		"unicode/utf8.DecodeRuneInString": inDecodeRuneInString,
 		"unicode.IsPrint": inIsPrint,
@@ -87,6 +111,8 @@ func init() {
 		intrinsicOverride[k] = true
 	}
 }
+
+func inIdentity(w *Worker, fr *frame, fn *ssa.Function, args []Value) Value { return args[0] }
 
 func inNop(w *Worker, fr *frame, fn *ssa.Function, args []Value) Value {
 	res := fn.Signature.Results()
@@ -365,10 +391,29 @@ func inStringsTrimRight(w *Worker, fr *frame, fn *ssa.Function, args []Value) Va
 
 func inStringsToUpper(w *Worker, fr *frame, fn *ssa.Function, args []Value) Value {
 	s := args[0].(Str)
-	if !s.IsConcrete() {
-		unsupported("strings.ToUpper on symbolic string")
+	if s.IsConcrete() {
+		return mkStr(strings.ToUpper(s.Go()))
 	}
-	return mkStr(strings.ToUpper(s.Go()))
+	if s.opaque {
+		unsupported("ToUpper on opaque")
+	}
+	var sb strBuilder
+	for i := range s.b {
+		if !w.condition(w.equalsDynLess(fr, s.At(i), 0x80)) {
+			unsupported("strings.ToUpper on non-ASCII symbolic string")
+		}
+		switch c := s.At(i).(type) {
+		case int64:
+			if 'a' <= c && c <= 'z' {
+				c -= 32
+			}
+			sb.addByte(c)
+		case *Term:
+			isLo := w.ts.And(w.ts.Cmp(OpUle, w.ts.Const('a', 8), c), w.ts.Cmp(OpUle, c, w.ts.Const('z', 8)))
+			sb.addByte(w.ts.Ite(isLo, w.ts.Bin(OpSub, c, w.ts.Const(32, 8)), c))
+		}
+	}
+	return sb.str()
 }
 
 func inStringsHasPrefix(w *Worker, fr *frame, fn *ssa.Function, args []Value) Value {
@@ -395,21 +440,208 @@ func inStringsHasSuffix(w *Worker, fr *frame, fn *ssa.Function, args []Value) Va
 }
 
 func inStringsContains(w *Worker, fr *frame, fn *ssa.Function, args []Value) Value {
-	s, p := args[0].(Str), args[1].(Str)
-	if s.IsConcrete() && p.IsConcrete() {
-		return strings.Contains(s.Go(), p.Go())
-	}
-	unsupported("strings.Contains on symbolic")
-	return nil
+	return inStringsIndex(w, fr, fn, args).(int64) >= 0
 }
 
+// strings.Index: naive search; every symbolic comparison is a solver-decided branch.
 func inStringsIndex(w *Worker, fr *frame, fn *ssa.Function, args []Value) Value {
 	s, p := args[0].(Str), args[1].(Str)
+	if s.opaque || p.opaque {
+		unsupported("strings.Index on opaque string")
+	}
 	if s.IsConcrete() && p.IsConcrete() {
 		return int64(strings.Index(s.Go(), p.Go()))
 	}
-	unsupported("strings.Index on symbolic")
-	return nil
+	n := len(p.b)
+	for i := 0; i+n <= len(s.b); i++ {
+		if w.condition(w.strEq(s.Slice(i, i+n), p)) {
+			return int64(i)
+		}
+	}
+	return int64(-1)
+}
+
+func byteArg(w *Worker, v Value) Value {
+	if t, ok := v.(*Term); ok && t.w != 8 {
+		return w.termResult(w.ts.Resize(t, 8, false), false)
+	}
+	return v
+}
+
+func inIndexByteString(w *Worker, fr *frame, fn *ssa.Function, args []Value) Value {
+	s := args[0].(Str)
+	if s.opaque {
+		unsupported("IndexByte on opaque string")
+	}
+	c := byteArg(w, args[1])
+	for i := range s.b {
+		if w.condition(w.equalsDyn(fr, s.At(i), c)) {
+			return int64(i)
+		}
+	}
+	return int64(-1)
+}
+
+func inLastIndexByteString(w *Worker, fr *frame, fn *ssa.Function, args []Value) Value {
+	s := args[0].(Str)
+	if s.opaque {
+		unsupported("LastIndexByte on opaque string")
+	}
+	c := byteArg(w, args[1])
+	for i := len(s.b) - 1; i >= 0; i-- {
+		if w.condition(w.equalsDyn(fr, s.At(i), c)) {
+			return int64(i)
+		}
+	}
+	return int64(-1)
+}
+
+func inIndexByteSlice(w *Worker, fr *frame, fn *ssa.Function, args []Value) Value {
+	s := args[0].(Slice)
+	c := byteArg(w, args[1])
+	for i := range s {
+		if w.condition(w.equalsDyn(fr, s[i], c)) {
+			return int64(i)
+		}
+	}
+	return int64(-1)
+}
+
+func inCountString(w *Worker, fr *frame, fn *ssa.Function, args []Value) Value {
+	s := args[0].(Str)
+	if s.opaque {
+		unsupported("Count on opaque string")
+	}
+	c := byteArg(w, args[1])
+	n := int64(0)
+	for i := range s.b {
+		if w.condition(w.equalsDyn(fr, s.At(i), c)) {
+			n++
+		}
+	}
+	return n
+}
+
+func inCountSlice(w *Worker, fr *frame, fn *ssa.Function, args []Value) Value {
+	s := args[0].(Slice)
+	c := byteArg(w, args[1])
+	n := int64(0)
+	for i := range s {
+		if w.condition(w.equalsDyn(fr, s[i], c)) {
+			n++
+		}
+	}
+	return n
+}
+
+func inStringsCount(w *Worker, fr *frame, fn *ssa.Function, args []Value) Value {
+	s, p := args[0].(Str), args[1].(Str)
+	if s.opaque || p.opaque {
+		unsupported("strings.Count on opaque string")
+	}
+	if len(p.b) == 0 {
+		if s.IsConcrete() {
+			return int64(strings.Count(s.Go(), ""))
+		}
+		unsupported("strings.Count(symbolic, \"\")")
+	}
+	n := int64(0)
+	for i := 0; i+len(p.b) <= len(s.b); {
+		if w.condition(w.strEq(s.Slice(i, i+len(p.b)), p)) {
+			n++
+			i += len(p.b)
+		} else {
+			i++
+		}
+	}
+	return n
+}
+
+func inBytesEqual(w *Worker, fr *frame, fn *ssa.Function, args []Value) Value {
+	a, b := args[0].(Slice), args[1].(Slice)
+	if len(a) != len(b) {
+		return false
+	}
+	var acc Value = true
+	for i := range a {
+		acc = w.andV(acc, w.equalsDyn(fr, a[i], b[i]))
+		if x, ok := acc.(bool); ok && !x {
+			return false
+		}
+	}
+	return acc
+}
+
+func asciiLowerV(w *Worker, v Value) Value {
+	switch c := v.(type) {
+	case int64:
+		if 'A' <= c && c <= 'Z' {
+			return c + 32
+		}
+		return c
+	case *Term:
+		isUp := w.ts.And(w.ts.Cmp(OpUle, w.ts.Const('A', 8), c), w.ts.Cmp(OpUle, c, w.ts.Const('Z', 8)))
+		return w.ts.Ite(isUp, w.ts.Bin(OpAdd, c, w.ts.Const(32, 8)), c)
+	}
+	panic("asciiLowerV")
+}
+
+// strings.EqualFold / ToLower: ASCII-only model; non-ASCII symbolic input is unsupported.
+func inStringsEqualFoldASCII(w *Worker, fr *frame, fn *ssa.Function, args []Value) Value {
+	s, p := args[0].(Str), args[1].(Str)
+	if s.IsConcrete() && p.IsConcrete() {
+		return strings.EqualFold(s.Go(), p.Go())
+	}
+	if s.opaque || p.opaque {
+		unsupported("EqualFold on opaque")
+	}
+	for _, x := range []Str{s, p} {
+		for i := range x.b {
+			lt := w.equalsDynLess(fr, x.At(i), 0x80)
+			if !w.condition(lt) {
+				unsupported("strings.EqualFold on non-ASCII symbolic string")
+			}
+		}
+	}
+	if len(s.b) != len(p.b) {
+		return false
+	}
+	var acc Value = true
+	for i := range s.b {
+		acc = w.andV(acc, w.equalsDyn(fr, asciiLowerV(w, s.At(i)), asciiLowerV(w, p.At(i))))
+		if x, ok := acc.(bool); ok && !x {
+			return false
+		}
+	}
+	return acc
+}
+
+func (w *Worker) equalsDynLess(fr *frame, v Value, k int64) Value {
+	switch c := v.(type) {
+	case int64:
+		return c < k
+	case *Term:
+		return w.simp(w.ts.Cmp(OpUlt, c, w.ts.Const(uint64(k), c.w)))
+	}
+	panic("equalsDynLess")
+}
+
+func inStringsToLower(w *Worker, fr *frame, fn *ssa.Function, args []Value) Value {
+	s := args[0].(Str)
+	if s.IsConcrete() {
+		return mkStr(strings.ToLower(s.Go()))
+	}
+	if s.opaque {
+		unsupported("ToLower on opaque")
+	}
+	var sb strBuilder
+	for i := range s.b {
+		if !w.condition(w.equalsDynLess(fr, s.At(i), 0x80)) {
+			unsupported("strings.ToLower on non-ASCII symbolic string")
+		}
+		sb.addByte(asciiLowerV(w, s.At(i)))
+	}
+	return sb.str()
 }
 
 // ---- buffers ----
